@@ -274,6 +274,12 @@ fn wire_to_trace(log: &[WireEvent], w: &mut Vec<serde_json::Value>, corrupt: boo
                 kinds.push(format!("{}:{}", e.from, kind));
                 n += 1;
             }
+            "closed" if e.how == "WouldBlock" || e.how == "TimedOut" => {
+                // the proxy's hang guard fired: this end never closed its connection
+                w.push(json!({"ev": "stuck", "by": e.from, "how": e.how}));
+                kinds.push(format!("{}:stuck", e.from));
+                n += 1;
+            }
             "closed" => {
                 w.push(json!({"ev": "closed", "by": e.from, "how": e.how}));
                 kinds.push(format!("{}:closed", e.from));
@@ -381,12 +387,31 @@ fn run_lib_case(sched: &[(usize, Call)], w: &mut Vec<serde_json::Value>, corrupt
     ];
     let short = Duration::from_millis(300);
     if dbg { eprintln!("est {:?}", tcase.elapsed()); }
+    let mut recvs = [0usize; 2];
     for &(pi, c) in sched {
+        if c == Call::Recv {
+            // one turn of the receive loop is only started when the proxy has taken a PDU
+            // for this peer that no earlier turn accounts for, or the other end is closed
+            // (keeps two peers from waiting on each other until the hang guard fires)
+            let other = if pi == 0 { "ac" } else { "rq" };
+            let (avail, closed) = {
+                let l = proxy.log.lock().unwrap();
+                (l.iter().filter(|e| e.from == other && e.what == "pdu" && e.pdu_type >= 4).count(), count(&l, other, "closed", None) > 0)
+            };
+            if !(avail > recvs[pi] || closed) {
+                continue;
+            }
+            recvs[pi] += 1;
+        }
         if dbg { eprintln!("  step {:?} {:?} at {:?}", pi, c, tcase.elapsed()); }
         let p = &mut peers[pi];
         p.poll();
         let name = p.name;
+        let busy = p.results.len() < p.issued; // still inside an earlier (blocking) call
         p.issue(c);
+        if busy {
+            continue; // queued behind it; nothing to wait for now
+        }
         match c {
             Call::Send => {
                 // wait for the call to return, then for the PDU to reach the proxy
